@@ -783,3 +783,660 @@ Proof.
 Qed.
 
 End Loop.
+
+(* ================================================================== limits *)
+(* the values a client can have negotiated: the daemon's default, the documented special
+   value, or a value inside the configured range *)
+Definition vals_ok (cf : cfg) (hb obs obt sr mt : Z) : Prop :=
+  (hb = 0 \/ hb = c_def_hb cf \/ 1000 * ns_per_ms <= hb <= ms (c_max_hb cf) * ns_per_ms) /\
+  (obs = 1 \/ obs = nsqd_defaultBufferSize \/ 64 <= obs <= c_max_obsize cf) /\
+  (obt = 0 \/ obt = c_def_obt cf \/ ms (c_min_obt cf) * ns_per_ms <= obt <= ms (c_max_obt cf) * ns_per_ms) /\
+  0 <= sr <= 99 /\
+  (mt = c_def_msgto cf \/ 1000 * ns_per_ms <= mt <= ms (c_max_msgto cf) * ns_per_ms).
+
+Definition st_vals_ok (cf : cfg) (st : cstate) : Prop :=
+  vals_ok cf (st_hb st) (st_obsize st) (st_obt st) (st_sample st) (st_msgto st).
+
+Definition out_ok (cf : cfg) (o : out) : Prop :=
+  match o with
+  | Enqueue t b d =>
+      is_valid_name t = true /\ 1 <= len b <= c_max_msg cf /\ 0 <= d /\ (d = 0 \/ d <= c_max_req cf)
+  | Batch size count =>
+      1 <= size <= c_max_body cf /\ 1 <= count <= Z.quot (c_max_body cf - 4) 5
+  | Sub t c => is_valid_name t = true /\ is_valid_name c = true
+  | Rdy n => 0 <= n <= c_max_rdy cf
+  | Fin id => len id = nsqd_MsgIDLength
+  | Req id d => len id = nsqd_MsgIDLength /\ (0 <= c_max_req cf -> 0 <= d <= c_max_req cf)
+  | Touch id _ => len id = nsqd_MsgIDLength
+  | Ident hb obs obt sr mt => vals_ok cf hb obs obt sr mt
+  | Upgrade _ _ _ lvl => lvl <= c_max_deflate cf
+  | _ => True
+  end.
+
+Lemma init_vals_ok : forall cf, st_vals_ok cf (init_state cf).
+Proof. intro cf. unfold st_vals_ok, vals_ok, init_state. cbn. lia. Qed.
+
+Lemma ns_pos : 0 < ns_per_ms.
+Proof. reflexivity. Qed.
+
+Lemma identify_client_vals : forall cf st d st',
+  st_vals_ok cf st -> identify_client cf st d = Some st' -> st_vals_ok cf st'.
+Proof.
+  intros cf st d st' [H1 [H2 [H3 [H4 H5]]]] E. unfold identify_client in E.
+  destruct (set_heartbeat cf (st_hb st) (i_hb d)) as [hb|] eqn:E1; [|discriminate].
+  destruct (set_output_buffer cf (st_obsize st) (st_obt st) (i_obsize d) (i_obt d)) as [[obs obt]|] eqn:E2; [|discriminate].
+  destruct (set_sample_rate (i_sample d)) as [sr|] eqn:E3; [|discriminate].
+  destruct (set_msg_timeout cf (st_msgto st) (i_msgto d)) as [mt|] eqn:E4; [|discriminate].
+  inversion E; subst st'. unfold st_vals_ok, vals_ok. cbn [st_hb st_obsize st_obt st_sample st_msgto].
+  pose proof ns_pos as NP.
+  assert (A1 : hb = 0 \/ hb = c_def_hb cf \/ 1000 * ns_per_ms <= hb <= ms (c_max_hb cf) * ns_per_ms).
+  { unfold set_heartbeat in E1. rewrite Z.geb_leb in E1.
+    destruct (i_hb d =? -1); [inversion E1; auto|]. destruct (i_hb d =? 0); [inversion E1; subst; tauto|].
+    destruct (Z.leb_spec 1000 (i_hb d)); [|discriminate]. destruct (Z.leb_spec (i_hb d) (ms (c_max_hb cf))); [|discriminate].
+    inversion E1; subst. right. right. nia. }
+  assert (A4 : 0 <= sr <= 99).
+  { unfold set_sample_rate in E3. rewrite Z.gtb_ltb in E3.
+    destruct (Z.ltb_spec (i_sample d) 0); [discriminate|]. destruct (Z.ltb_spec 99 (i_sample d)); [discriminate|].
+    inversion E3; subst. lia. }
+  assert (A5 : mt = c_def_msgto cf \/ 1000 * ns_per_ms <= mt <= ms (c_max_msgto cf) * ns_per_ms).
+  { unfold set_msg_timeout in E4. rewrite Z.geb_leb in E4.
+    destruct (i_msgto d =? 0); [inversion E4; subst; tauto|].
+    destruct (Z.leb_spec 1000 (i_msgto d)); [|discriminate]. destruct (Z.leb_spec (i_msgto d) (ms (c_max_msgto cf))); [|discriminate].
+    inversion E4; subst. right. nia. }
+  assert (A23 : (obs = 1 \/ obs = nsqd_defaultBufferSize \/ 64 <= obs <= c_max_obsize cf) /\
+                (obt = 0 \/ obt = c_def_obt cf \/ ms (c_min_obt cf) * ns_per_ms <= obt <= ms (c_max_obt cf) * ns_per_ms)).
+  { unfold set_output_buffer in E2. rewrite !Z.geb_leb in E2.
+    assert (T : forall to1,
+      (to1 = 0 \/ to1 = c_def_obt cf \/ ms (c_min_obt cf) * ns_per_ms <= to1 <= ms (c_max_obt cf) * ns_per_ms) ->
+      (if i_obsize d =? -1 then Some (1, 0)
+       else if i_obsize d =? 0 then Some (st_obsize st, to1)
+       else if (64 <=? i_obsize d) && (i_obsize d <=? c_max_obsize cf) then Some (i_obsize d, to1) else None) = Some (obs, obt) ->
+      (obs = 1 \/ obs = nsqd_defaultBufferSize \/ 64 <= obs <= c_max_obsize cf) /\
+      (obt = 0 \/ obt = c_def_obt cf \/ ms (c_min_obt cf) * ns_per_ms <= obt <= ms (c_max_obt cf) * ns_per_ms)).
+    { intros to1 Hto F. destruct (i_obsize d =? -1); [inversion F; subst; auto|].
+      destruct (i_obsize d =? 0); [inversion F; subst; tauto|].
+      destruct (Z.leb_spec 64 (i_obsize d)); [|discriminate]. destruct (Z.leb_spec (i_obsize d) (c_max_obsize cf)); [|discriminate].
+      inversion F; subst. split; [right; right; lia | exact Hto]. }
+    destruct (i_obt d =? -1); [apply (T 0); auto|].
+    destruct (i_obt d =? 0); [apply (T (st_obt st)); auto|].
+    destruct (Z.leb_spec (ms (c_min_obt cf)) (i_obt d)); [|discriminate].
+    destruct (Z.leb_spec (i_obt d) (ms (c_max_obt cf))); [|discriminate]. cbn [andb] in E2.
+    apply (T (i_obt d * ns_per_ms)); [right; right; nia | exact E2]. }
+  tauto.
+Qed.
+
+Lemma valid_id_len : forall p, valid_id p = true -> len p = nsqd_MsgIDLength.
+Proof. intros p H. unfold valid_id in H. apply Z.eqb_eq in H. exact H. Qed.
+
+Lemma req_param_range : forall max p d, req_param max p = ReqDelay d -> 0 <= max -> 0 <= d <= max.
+Proof.
+  intros max p d H M. unfold req_param in H. destruct (byte_to_base10 p) as [n|]; [|discriminate].
+  inversion H; subst. pose proof (ms_to_duration_nonneg n). rewrite Z.gtb_ltb.
+  destruct (Z.ltb_spec (ms_to_duration n) 0); [lia|].
+  destruct (Z.ltb_spec max (ms_to_duration n)); lia.
+Qed.
+
+Lemma defer_ok_range : forall max p, defer_ok max p = true ->
+  0 <= match digits_value p with Some n => ms_to_duration n | None => 0 end <= max.
+Proof.
+  intros max p H. unfold defer_ok in H. destruct (digits_value p) as [n|]; [|discriminate].
+  pose proof (ms_to_duration_nonneg n). lia.
+Qed.
+
+Lemma rdy_ok_range : forall max p, rdy_ok max p = true -> 0 <= rdy_value p <= max.
+Proof.
+  intros max p H. unfold rdy_ok, rdy_value in *. destruct (digits_value p) as [n|]; [|discriminate]. lia.
+Qed.
+
+(* what a handler hands to the core, and the client values it leaves *)
+Definition res_limits (cf : cfg) (r : hres) : Prop :=
+  match r with
+  | HOk o st' _ => Forall (out_ok cf) o /\ st_vals_ok cf st'
+  | HStop o => Forall (out_ok cf) o
+  | HSoft _ st' _ => st_vals_ok cf st'
+  | _ => True
+  end.
+
+Lemma vals_set_kind : forall cf st k, st_vals_ok cf st -> st_vals_ok cf (set_kind st k).
+Proof. intros. exact H. Qed.
+Lemma vals_push_hist : forall cf st k b, st_vals_ok cf st -> st_vals_ok cf (push_hist st k b).
+Proof. intros. exact H. Qed.
+
+Lemma size_ok_bodies : forall cf k bs l r,
+  split_msgs k bs = Some (l, r) -> forallb (size_ok cf) l = true ->
+  Forall (fun b => 1 <= len b <= c_max_msg cf) (map snd l).
+Proof.
+  induction k as [|k IH]; intros bs l r H F; cbn [split_msgs] in H.
+  - inversion H; subst. constructor.
+  - destruct (declared bs) as [[sz r0]|]; [|discriminate].
+    destruct (Z.ltb_spec (len r0) sz); [discriminate|].
+    destruct (split_msgs k (skipn (Z.to_nat sz) r0)) as [[l' r']|] eqn:E; [|discriminate].
+    inversion H; subst. cbn [forallb] in F. apply andb_true_iff in F. destruct F as [F1 F2].
+    cbn [map snd]. constructor; [|eapply IH; eauto].
+    unfold size_ok in F1. cbn [fst] in F1. unfold len in *. rewrite firstn_length. lia.
+Qed.
+
+Section Limits.
+Variable cf : cfg.
+Variable orc : oracle.
+Variable json : bytes -> jres.
+
+Ltac ok_tac := repeat (first [ apply Forall_cons | apply Forall_nil ]); cbn [out_ok]; auto.
+
+Lemma handler_limits : forall c st params rest, st_vals_ok cf st ->
+  res_limits cf (handler cf orc json c st params rest).
+Proof.
+  intros c st params rest V. destruct c; cbn [handler].
+  - (* IDENTIFY *)
+    unfold do_identify. destruct (st_kind st); try exact I.
+    rewrite read_body_ident_spec. destruct (body_present (c_max_body cf) rest); try exact I.
+    destruct (json (body_of rest)) as [|d]; try exact I.
+    destruct (identify_client cf st d) as [st'|] eqn:EI; try exact I.
+    pose proof (identify_client_vals _ _ _ _ V EI) as V'.
+    destruct (i_fn d); cbn [negb].
+    2:{ cbn [res_limits]. split; [ok_tac | exact V']. }
+    destruct ((c_deflate_on cf && i_deflate d) && (c_snappy_on cf && i_snappy d)); try exact I.
+    destruct (c_tls_on cf && i_tls d || c_snappy_on cf && i_snappy d || c_deflate_on cf && i_deflate d);
+      cbn [res_limits].
+    + ok_tac. destruct (c_max_deflate cf <? _) eqn:L; lia.
+    + split; [ok_tac | exact V'].
+  - (* FIN *)
+    unfold do_fin. destruct (negb (consuming st)); try exact I. destruct (len params <? 2); try exact I.
+    destruct (idx params 1) as [p|]; try exact I. rewrite get_message_id_spec.
+    destruct (valid_id p) eqn:EV; try exact I. apply valid_id_len in EV.
+    destruct (ask orc st (KFin p)); cbn [res_limits]; [split; [ok_tac|] |]; apply vals_push_hist; exact V.
+  - (* RDY *)
+    unfold do_rdy. destruct (st_kind st); try exact I.
+    + destruct (len params >? 1).
+      * destruct (idx params 1) as [p|]; try exact I. rewrite rdy_param_local.
+        destruct (rdy_ok (c_max_rdy cf) p) eqn:ER; try exact I. apply rdy_ok_range in ER.
+        cbn [res_limits]. split; [ok_tac | exact V].
+      * rewrite Z.gtb_ltb. cbn [orb Z.ltb Z.compare]. destruct (Z.ltb_spec (c_max_rdy cf) 1); try exact I.
+        cbn [res_limits]. split; [ok_tac; lia | exact V].
+    + cbn [res_limits]. split; [ok_tac | exact V].
+  - (* REQ *)
+    unfold do_req. destruct (negb (consuming st)); try exact I. destruct (len params <? 3); try exact I.
+    destruct (idx params 1) as [p|]; try exact I. rewrite get_message_id_spec.
+    destruct (valid_id p) eqn:EV; try exact I. apply valid_id_len in EV.
+    destruct (idx params 2) as [t|]; try exact I.
+    destruct (req_param (c_max_req cf) t) as [|d] eqn:ER; try exact I.
+    destruct (ask orc st (KReq p d)); cbn [res_limits]; [split; [ok_tac|] |]; try (apply vals_push_hist; exact V).
+    split; [exact EV | apply (req_param_range _ _ _ ER)].
+  - (* PUB *)
+    unfold do_pub. destruct (len params <? 2); try exact I. destruct (idx params 1) as [p|]; try exact I.
+    destruct (is_valid_name p) eqn:EN; cbn [negb]; try exact I.
+    rewrite read_body_msg_spec. destruct (body_present (c_max_msg cf) rest) eqn:EB; try exact I.
+    apply body_present_len in EB.
+    destruct (ask orc st (KPut p (body_of rest) 0)); try exact I.
+    cbn [res_limits]. split; [ok_tac; repeat split; auto; lia | apply vals_push_hist; exact V].
+  - (* MPUB *)
+    unfold do_mpub. destruct (len params <? 2); try exact I. destruct (idx params 1) as [p|]; try exact I.
+    destruct (is_valid_name p) eqn:EN; cbn [negb]; try exact I.
+    change (read_len rest) with (declared rest).
+    destruct (declared rest) as [[blen r1]|]; try exact I. rewrite Z.gtb_ltb.
+    destruct (Z.leb_spec blen 0); try exact I. destruct (Z.ltb_spec (c_max_body cf) blen); try exact I.
+    rewrite read_mpub_spec. destruct (declared (limit_view blen r1)) as [[num r2]|]; try exact I.
+    destruct (Z.leb_spec 1 num); cbn [andb]; try exact I.
+    destruct (Z.leb_spec num (Z.quot (c_max_body cf - 4) 5)); try exact I.
+    rewrite read_msgs_spec. destruct (split_msgs (Z.to_nat num) r2) as [[l unread]|] eqn:ES; try exact I.
+    destruct (forallb (size_ok cf) l) eqn:EF; try exact I.
+    destruct (ask orc st (KPutMulti p (map snd l))); try exact I.
+    cbn [res_limits]. split; [|apply vals_push_hist; exact V].
+    constructor; [cbn [out_ok]; lia|]. apply Forall_app. split; [|ok_tac].
+    pose proof (size_ok_bodies _ _ _ _ _ ES EF) as SB.
+    rewrite Forall_forall in *. intros x Hx. apply in_map_iff in Hx. destruct Hx as [b [Hb Hin]]. subst x.
+    cbn [out_ok]. specialize (SB b Hin). repeat split; auto; lia.
+  - (* DPUB *)
+    unfold do_dpub. destruct (len params <? 3); try exact I. destruct (idx params 1) as [p|]; try exact I.
+    destruct (is_valid_name p) eqn:EN; cbn [negb]; try exact I.
+    destruct (idx params 2) as [t|]; try exact I. rewrite dpub_param_local.
+    destruct (defer_ok (c_max_req cf) t) eqn:ED; try exact I. apply defer_ok_range in ED.
+    rewrite read_body_msg_spec. destruct (body_present (c_max_msg cf) rest) eqn:EB; try exact I.
+    apply body_present_len in EB.
+    destruct (ask orc st _); try exact I.
+    cbn [res_limits]. split; [ok_tac; repeat split; auto; lia | apply vals_push_hist; exact V].
+  - (* NOP *) cbn. split; [constructor | exact V].
+  - (* TOUCH *)
+    unfold do_touch. destruct (negb (consuming st)); try exact I. destruct (len params <? 2); try exact I.
+    destruct (idx params 1) as [p|]; try exact I. rewrite get_message_id_spec.
+    destruct (valid_id p) eqn:EV; try exact I. apply valid_id_len in EV.
+    destruct (ask orc st (KTouch p)); cbn [res_limits]; [split; [ok_tac|] |]; apply vals_push_hist; exact V.
+  - (* SUB *)
+    unfold do_sub. destruct (st_kind st); try exact I. destruct (st_hb st <=? 0); try exact I.
+    destruct (len params <? 3); try exact I. destruct (idx params 1) as [p|]; try exact I.
+    destruct (is_valid_name p) eqn:EN; cbn [negb]; try exact I.
+    destruct (idx params 2) as [q|]; try exact I.
+    destruct (is_valid_name q) eqn:EQ; cbn [negb]; try exact I.
+    destruct (ask orc st (KSub p q)); try exact I.
+    cbn [res_limits]. split; [ok_tac | exact V].
+  - (* CLS *)
+    unfold do_cls. destruct (st_kind st); try exact I. cbn [res_limits]. split; [ok_tac | exact V].
+  - (* AUTH *)
+    unfold do_auth. destruct (st_kind st); try exact I. destruct (negb (len params =? 1)); try exact I.
+    rewrite read_body_ident_spec. destruct (body_present (c_max_body cf) rest); exact I.
+  - exact I.
+Qed.
+
+Lemma exec_limits : forall st params rest, st_vals_ok cf st ->
+  match exec cf orc json st params rest with
+  | XPanic => True
+  | XRes _ r => res_limits cf r
+  end.
+Proof.
+  intros st params rest V. unfold exec. destruct (idx params 0) as [name|]; [|exact I].
+  destruct (lookup_cmd dispatch_table name) as [c g]. cbv beta iota.
+  destruct (g && tls_gate_refuses cf); [exact I | apply handler_limits; exact V].
+Qed.
+
+Lemma steps_limits : forall fuel st bs, st_vals_ok cf st ->
+  Forall (out_ok cf) (flat_map outs_of_ev (steps cf orc json fuel st bs)).
+Proof.
+  induction fuel as [|f IH]; intros st bs V; cbn [steps].
+  - destruct (read_slice buffer_size bs) as [[line rest]|]; cbn; repeat constructor.
+  - destruct (read_slice buffer_size bs) as [[line rest]|]; [|cbn; repeat constructor].
+    destruct (parse_line line) as [params|]; [|cbn; repeat constructor].
+    pose proof (exec_limits st params rest V) as HE.
+    destruct (exec cf orc json st params rest) as [|c r]; [cbn; repeat constructor|].
+    cbn [flat_map outs_of_ev]. apply Forall_app. split.
+    + destruct r; cbn [outs_of_res res_limits] in *; try tauto; repeat constructor.
+    + destruct r; cbn [next_of]; cbn [res_limits] in HE; try (cbn; constructor).
+      * apply IH. tauto.
+      * apply IH. exact HE.
+Qed.
+
+Theorem run_limits : forall st bs, st_vals_ok cf st -> Forall (out_ok cf) (run cf orc json st bs).
+Proof. intros. unfold run. apply steps_limits. exact H. Qed.
+
+End Limits.
+
+(* ================================================================== a refused publish enqueues nothing *)
+Definition is_enq (o : out) : bool := match o with Enqueue _ _ _ => true | _ => false end.
+Definition enq_count (o : list out) : nat := length (filter is_enq o).
+Definition is_publish (c : cmd) : bool := match c with CPub | CMpub | CDpub => true | _ => false end.
+
+(* bytes of a batch on the wire: the count, then each message with its size *)
+Fixpoint batch_bytes (bodies : list bytes) : Z :=
+  match bodies with [] => 0 | b :: r => 4 + len b + batch_bytes r end.
+
+Lemma enq_count_map : forall t (l : list bytes) tail,
+  enq_count (map (fun b => Enqueue t b 0) l ++ tail) = (length l + enq_count tail)%nat.
+Proof. intros t l tail. induction l as [|b l IH]; cbn; [reflexivity|]. unfold enq_count in IH. rewrite IH. reflexivity. Qed.
+
+Lemma split_msgs_bytes : forall cf k bs l r,
+  split_msgs k bs = Some (l, r) -> forallb (size_ok cf) l = true ->
+  len bs = batch_bytes (map snd l) + len r.
+Proof.
+  induction k as [|k IH]; intros bs l r H F; cbn [split_msgs] in H.
+  - inversion H; subst. cbn. lia.
+  - destruct (declared bs) as [[sz r0]|] eqn:D; [|discriminate].
+    destruct (Z.ltb_spec (len r0) sz); [discriminate|].
+    destruct (split_msgs k (skipn (Z.to_nat sz) r0)) as [[l' r']|] eqn:E; [|discriminate].
+    inversion H; subst. cbn [forallb] in F. apply andb_true_iff in F. destruct F as [F1 F2].
+    specialize (IH _ _ _ E F2). cbn [map snd batch_bytes].
+    unfold size_ok in F1. cbn [fst] in F1. apply declared_len in D.
+    unfold len in *. rewrite firstn_length. rewrite skipn_length in IH. lia.
+Qed.
+
+(* the shape of an accepted MPUB: all its messages, declared count, within the declared size *)
+Definition mpub_shape (cf : cfg) (o : list out) : Prop :=
+  exists t blen bodies,
+    o = Batch blen (len bodies) :: map (fun b => Enqueue t b 0) bodies ++ [Resp ROk]
+    /\ 1 <= len bodies
+    /\ 4 + batch_bytes bodies <= blen <= c_max_body cf.
+
+Lemma mpub_ok_shape : forall cf orc st params rest o st' rest',
+  do_mpub cf orc st params rest = HOk o st' rest' -> mpub_shape cf o.
+Proof.
+  intros cf orc st params rest o st' rest' H. unfold do_mpub in H.
+  destruct (len params <? 2); [discriminate|]. destruct (idx params 1) as [p|]; [|discriminate].
+  destruct (negb (is_valid_name p)); [discriminate|].
+  change (read_len rest) with (declared rest) in H.
+  destruct (declared rest) as [[blen r1]|]; [|discriminate]. rewrite Z.gtb_ltb in H.
+  destruct (Z.leb_spec blen 0); [discriminate|]. destruct (Z.ltb_spec (c_max_body cf) blen); [discriminate|].
+  rewrite read_mpub_spec in H. destruct (declared (limit_view blen r1)) as [[num r2]|] eqn:D2; [|discriminate].
+  destruct (Z.leb_spec 1 num); cbn [andb] in H; [|discriminate].
+  destruct (num <=? Z.quot (c_max_body cf - 4) 5); [|discriminate].
+  rewrite read_msgs_spec in H. destruct (split_msgs (Z.to_nat num) r2) as [[l unread]|] eqn:ES; [|discriminate].
+  destruct (forallb (size_ok cf) l) eqn:EF; [|discriminate].
+  destruct (ask orc st (KPutMulti p (map snd l))); [|discriminate].
+  inversion H; subst. exists p, blen, (map snd l).
+  pose proof (split_msgs_count _ _ _ _ ES) as HC.
+  assert (HN : len (map snd l) = num) by (unfold len; rewrite map_length, HC; lia).
+  rewrite HN. split; [reflexivity|]. split; [lia|].
+  pose proof (split_msgs_bytes _ _ _ _ _ ES EF) as HB. apply declared_len in D2.
+  pose proof (len_nonneg _ unread).
+  assert (len (limit_view blen r1) <= blen) by (unfold limit_view, len; rewrite firstn_length; lia).
+  unfold len in *. lia.
+Qed.
+
+Lemma mpub_shape_count : forall cf o, mpub_shape cf o -> (1 <= enq_count o)%nat.
+Proof.
+  intros cf o [t [blen [bodies [E [H1 _]]]]]. subst o. unfold enq_count. cbn [filter is_enq].
+  fold (enq_count (map (fun b => Enqueue t b 0) bodies ++ [Resp ROk])). rewrite enq_count_map.
+  unfold len in H1. lia.
+Qed.
+
+Section Reject.
+Variable cf : cfg.
+Variable orc : oracle.
+Variable json : bytes -> jres.
+
+(* how many messages one executed command hands to the topic *)
+Definition enq_rule (c : cmd) (r : hres) : Prop :=
+  match r with
+  | HOk o _ _ =>
+      match c with
+      | CPub | CDpub => enq_count o = 1%nat
+      | CMpub => mpub_shape cf o
+      | _ => enq_count o = 0%nat
+      end
+  | HStop o => enq_count o = 0%nat
+  | _ => enq_count (outs_of_res r) = 0%nat
+  end.
+
+Lemma handler_enq : forall c st params rest, enq_rule c (handler cf orc json c st params rest).
+Proof.
+  intros c st params rest.
+  destruct (handler cf orc json c st params rest) as [o st' rest'|e|e st' rest'|o|] eqn:H;
+    cbn [enq_rule outs_of_res]; try reflexivity.
+  - destruct c; cbn [handler] in H.
+    + unfold do_identify in H. destruct (st_kind st); try discriminate.
+      destruct (read_body_ident cf rest); try discriminate. destruct (json body); try discriminate.
+      destruct (identify_client cf st d); try discriminate.
+      destruct (negb (i_fn d)); [inversion H; reflexivity|].
+      destruct (c_deflate_on cf && i_deflate d && (c_snappy_on cf && i_snappy d)); try discriminate.
+      destruct (c_tls_on cf && i_tls d || c_snappy_on cf && i_snappy d || c_deflate_on cf && i_deflate d); inversion H; reflexivity.
+    + unfold do_fin in H. destruct (negb (consuming st)); try discriminate. destruct (len params <? 2); try discriminate.
+      destruct (idx params 1); try discriminate. destruct (get_message_id b); try discriminate.
+      destruct (ask orc st (KFin id)); inversion H; reflexivity.
+    + unfold do_rdy in H. destruct (st_kind st); try discriminate.
+      * destruct (len params >? 1).
+        -- destruct (idx params 1); try discriminate. destruct (rdy_param (c_max_rdy cf) b); inversion H; reflexivity.
+        -- destruct ((1 <? 0) || (1 >? c_max_rdy cf)); inversion H; reflexivity.
+      * inversion H; reflexivity.
+    + unfold do_req in H. destruct (negb (consuming st)); try discriminate. destruct (len params <? 3); try discriminate.
+      destruct (idx params 1); try discriminate. destruct (get_message_id b); try discriminate.
+      destruct (idx params 2); try discriminate. destruct (req_param (c_max_req cf) b0); try discriminate.
+      destruct (ask orc st (KReq id ns)); inversion H; reflexivity.
+    + unfold do_pub in H. destruct (len params <? 2); try discriminate. destruct (idx params 1); try discriminate.
+      destruct (negb (is_valid_name b)); try discriminate. destruct (read_body_msg cf rest); try discriminate.
+      destruct (ask orc st (KPut b body 0)); inversion H; reflexivity.
+    + eapply mpub_ok_shape; exact H.
+    + unfold do_dpub in H. destruct (len params <? 3); try discriminate. destruct (idx params 1); try discriminate.
+      destruct (negb (is_valid_name b)); try discriminate. destruct (idx params 2); try discriminate.
+      destruct (dpub_param (c_max_req cf) b0); try discriminate. destruct (read_body_msg cf rest); try discriminate.
+      destruct (ask orc st (KPut b body ns)); inversion H; reflexivity.
+    + inversion H; reflexivity.
+    + unfold do_touch in H. destruct (negb (consuming st)); try discriminate. destruct (len params <? 2); try discriminate.
+      destruct (idx params 1); try discriminate. destruct (get_message_id b); try discriminate.
+      destruct (ask orc st (KTouch id)); inversion H; reflexivity.
+    + unfold do_sub in H. destruct (st_kind st); try discriminate. destruct (st_hb st <=? 0); try discriminate.
+      destruct (len params <? 3); try discriminate. destruct (idx params 1); try discriminate.
+      destruct (negb (is_valid_name b)); try discriminate. destruct (idx params 2); try discriminate.
+      destruct (negb (is_valid_name b0)); try discriminate.
+      destruct (ask orc st (KSub b b0)); inversion H; reflexivity.
+    + unfold do_cls in H. destruct (st_kind st); inversion H; reflexivity.
+    + unfold do_auth in H. destruct (st_kind st); try discriminate. destruct (negb (len params =? 1)); try discriminate.
+      destruct (read_body_ident cf rest); discriminate.
+    + discriminate.
+  - destruct c; cbn [handler] in H; try discriminate.
+    all: try (unfold do_fin in H || unfold do_rdy in H || unfold do_req in H || unfold do_pub in H || unfold do_mpub in H
+              || unfold do_dpub in H || unfold do_touch in H || unfold do_sub in H || unfold do_cls in H || unfold do_auth in H
+              || unfold do_nop in H).
+    + unfold do_identify in H. destruct (st_kind st); try discriminate.
+      destruct (read_body_ident cf rest); try discriminate. destruct (json body); try discriminate.
+      destruct (identify_client cf st d); try discriminate.
+      destruct (negb (i_fn d)); [discriminate|].
+      destruct (c_deflate_on cf && i_deflate d && (c_snappy_on cf && i_snappy d)); try discriminate.
+      destruct (c_tls_on cf && i_tls d || c_snappy_on cf && i_snappy d || c_deflate_on cf && i_deflate d); inversion H; reflexivity.
+    + repeat match type of H with
+             | (if ?x then _ else _) = _ => destruct x
+             | match ?x with _ => _ end = _ => destruct x
+             end; discriminate.
+    + repeat match type of H with
+             | (if ?x then _ else _) = _ => destruct x
+             | match ?x with _ => _ end = _ => destruct x
+             end; discriminate.
+    + repeat match type of H with
+             | (if ?x then _ else _) = _ => destruct x
+             | match ?x with _ => _ end = _ => destruct x
+             end; discriminate.
+    + repeat match type of H with
+             | (if ?x then _ else _) = _ => destruct x
+             | match ?x with _ => _ end = _ => destruct x
+             end; discriminate.
+    + repeat match type of H with
+             | (if ?x then _ else _) = _ => destruct x
+             | match ?x with _ => _ end = _ => destruct x
+             end; discriminate.
+    + repeat match type of H with
+             | (if ?x then _ else _) = _ => destruct x
+             | match ?x with _ => _ end = _ => destruct x
+             end; discriminate.
+    + repeat match type of H with
+             | (if ?x then _ else _) = _ => destruct x
+             | match ?x with _ => _ end = _ => destruct x
+             end; discriminate.
+    + repeat match type of H with
+             | (if ?x then _ else _) = _ => destruct x
+             | match ?x with _ => _ end = _ => destruct x
+             end; discriminate.
+    + repeat match type of H with
+             | (if ?x then _ else _) = _ => destruct x
+             | match ?x with _ => _ end = _ => destruct x
+             end; discriminate.
+    + repeat match type of H with
+             | (if ?x then _ else _) = _ => destruct x
+             | match ?x with _ => _ end = _ => destruct x
+             end; discriminate.
+Qed.
+
+Definition ev_enq (e : ev) : Prop :=
+  match e with
+  | EvCmd _ c _ _ r => enq_rule c r
+  | _ => enq_count (outs_of_ev e) = 0%nat
+  end.
+
+Lemma exec_enq : forall st params rest,
+  match exec cf orc json st params rest with
+  | XPanic => True
+  | XRes c r => enq_rule c r
+  end.
+Proof.
+  intros st params rest. unfold exec. destruct (idx params 0) as [name|]; [|exact I].
+  destruct (lookup_cmd dispatch_table name) as [c g]. cbv beta iota.
+  destruct (g && tls_gate_refuses cf); [reflexivity | apply handler_enq].
+Qed.
+
+Lemma steps_enq : forall fuel st bs, Forall ev_enq (steps cf orc json fuel st bs).
+Proof.
+  induction fuel as [|f IH]; intros st bs; cbn [steps].
+  - destruct (read_slice buffer_size bs) as [[line rest]|]; repeat constructor.
+  - destruct (read_slice buffer_size bs) as [[line rest]|]; [|repeat constructor].
+    destruct (parse_line line) as [params|]; [|repeat constructor].
+    pose proof (exec_enq st params rest) as HE.
+    destruct (exec cf orc json st params rest) as [|c r]; [repeat constructor|].
+    constructor; [exact HE|]. destruct (next_of r) as [[st' rest']|]; [apply IH | constructor].
+Qed.
+
+End Reject.
+
+(* ================================================================== isolation *)
+Section Isolation.
+Variable cf : cfg.
+
+Definition evs_of (p : peer) (k : conn) : list ev :=
+  match k with
+  | None => []
+  | Some (st, bs) => steps cf (p_orc p) (p_json p) (length bs) st bs
+  end.
+
+Fixpoint count_true (l : list bool) : nat :=
+  match l with [] => O | true :: r => S (count_true r) | false :: r => count_true r end.
+
+Lemma conn_step_evs : forall p k o k',
+  conn_step cf p k = (o, k') ->
+  match evs_of p k with
+  | [] => o = [] /\ k' = None
+  | e :: rest => o = outs_of_ev e /\ evs_of p k' = rest
+  end.
+Proof.
+  intros p k o k'. destruct k as [[st bs]|]; cbn [conn_step evs_of].
+  2:{ intro H. inversion H; subst. split; reflexivity. }
+  rewrite steps_unfold. unfold loop_body, iter.
+  destruct (read_slice buffer_size bs) as [[line rest]|]; [|intro H; inversion H; subst; split; reflexivity].
+  destruct (parse_line line) as [params|]; [|intro H; inversion H; subst; split; reflexivity].
+  destruct (exec cf (p_orc p) (p_json p) st params rest) as [|c r]; [intro H; inversion H; subst; split; reflexivity|].
+  intro H. inversion H; subst. split; [reflexivity|].
+  destruct (next_of r) as [[st' rest']|]; reflexivity.
+Qed.
+
+Lemma outputs_of_app : forall w a b, outputs_of w (a ++ b) = outputs_of w a ++ outputs_of w b.
+Proof. intros. unfold outputs_of. rewrite filter_app, map_app. reflexivity. Qed.
+Lemma outputs_of_same : forall w o, outputs_of w (map (pair w) o) = o.
+Proof.
+  intros w o. unfold outputs_of. induction o as [|x o IH]; cbn; [reflexivity|].
+  rewrite Bool.eqb_reflx. cbn. f_equal. exact IH.
+Qed.
+Lemma outputs_of_other : forall w o, outputs_of w (map (pair (negb w)) o) = [].
+Proof.
+  intros w o. unfold outputs_of. induction o as [|x o IH]; cbn; [reflexivity|].
+  destruct w; cbn; exact IH.
+Qed.
+
+(* under every schedule, what connection A writes and hands to the core is the run of its
+   own loop on its own bytes, cut after as many iterations as A was scheduled *)
+Theorem sys_run_A : forall pa pb sched a b,
+  outputs_of true (sys_run cf pa pb sched a b) =
+  flat_map outs_of_ev (firstn (count_true sched) (evs_of pa a)).
+Proof.
+  intros pa pb. induction sched as [|w s IH]; intros a b; [reflexivity|].
+  destruct w; cbn [sys_run count_true].
+  - destruct (conn_step cf pa a) as [o a'] eqn:E. pose proof (conn_step_evs _ _ _ _ E) as H.
+    rewrite outputs_of_app, outputs_of_same, IH.
+    destruct (evs_of pa a) as [|e rest]; destruct H as [H1 H2].
+    + subst o a'. cbn. rewrite firstn_nil. reflexivity.
+    + subst o. cbn [firstn flat_map]. rewrite H2. reflexivity.
+  - destruct (conn_step cf pb b) as [o b'] eqn:E.
+    rewrite outputs_of_app. change false with (negb true). rewrite outputs_of_other. cbn [app]. apply IH.
+Qed.
+
+Lemma steps_length : forall orc json f st bs, (length (steps cf orc json f st bs) <= S (length bs))%nat.
+Proof.
+  intros orc json. induction f as [|f IH]; intros st bs; cbn [steps].
+  - destruct (read_slice buffer_size bs) as [[line rest]|]; cbn; lia.
+  - destruct (read_slice buffer_size bs) as [[line rest]|] eqn:R; [|cbn; lia].
+    pose proof (read_slice_shorter _ _ _ _ R) as HS.
+    destruct (parse_line line) as [params|] eqn:HP; [|cbn; lia].
+    pose proof (read_slice_spec _ _ _ _ R) as [l0 [HL _]]. subst line.
+    destruct (parse_line_ok l0) as [params' [HP' HN]]. rewrite HP in HP'. inversion HP'; subst params'.
+    pose proof (exec_conforms cf orc json st params rest HN) as HE.
+    destruct (exec cf orc json st params rest) as [|c r]; [cbn; lia|].
+    cbn [length]. destruct (next_of r) as [[st' rest']|] eqn:N; [|cbn; lia].
+    pose proof (next_shorter _ _ _ _ _ _ _ _ _ _ HE N). specialize (IH st' rest'). lia.
+Qed.
+
+(* isolation: A's outputs do not depend on B at all (its bytes, its state, its oracles),
+   and once A has been scheduled often enough they are exactly exec_conn's *)
+Theorem isolation : forall pa pb pb' sched a b b',
+  outputs_of true (sys_run cf pa pb sched a b) = outputs_of true (sys_run cf pa pb' sched a b').
+Proof. intros. rewrite !sys_run_A. reflexivity. Qed.
+
+Theorem isolation_complete : forall pa pb sched st bs b,
+  (length bs < count_true sched)%nat ->
+  outputs_of true (sys_run cf pa pb sched (Some (st, bs)) b) = run cf (p_orc pa) (p_json pa) st bs.
+Proof.
+  intros pa pb sched st bs b H. rewrite sys_run_A. unfold run. cbn [evs_of].
+  rewrite firstn_all2; [reflexivity|].
+  pose proof (steps_length (p_orc pa) (p_json pa) (length bs) st bs). lia.
+Qed.
+
+End Isolation.
+
+(* ================================================================== corollaries *)
+Definition ends_loop (e : ev) : Prop :=
+  match e with EvCmd _ _ _ _ r => next_of r = None | _ => True end.
+
+Lemma single_split : forall A (x : A) pre e post, [x] = pre ++ e :: post -> post = [].
+Proof.
+  intros A x pre e post H. destruct pre as [|y [|z pre]]; cbn in H; inversion H; reflexivity.
+Qed.
+
+(* an event after which the loop does not continue (fatal error, upgrade, failed read) is the last one *)
+Lemma ender_is_last : forall cf orc json f st bs pre e post,
+  steps cf orc json f st bs = pre ++ e :: post -> ends_loop e -> post = [].
+Proof.
+  intros cf orc json. induction f as [|f IH]; intros st bs pre e post; cbn [steps].
+  - destruct (read_slice buffer_size bs) as [[line rest]|]; intros H _; eapply single_split; exact H.
+  - destruct (read_slice buffer_size bs) as [[line rest]|]; [|intros H _; eapply single_split; exact H].
+    destruct (parse_line line) as [params|]; [|intros H _; eapply single_split; exact H].
+    destruct (exec cf orc json st params rest) as [|c r]; [intros H _; eapply single_split; exact H|].
+    intros H E. destruct pre as [|x pre]; cbn [app] in H; inversion H as [[H1 H2]].
+    + subst e. cbn [ends_loop] in E. rewrite E. reflexivity.
+    + destruct (next_of r) as [[st' rest']|]; [eapply IH; eauto|].
+      destruct pre; discriminate.
+Qed.
+
+Theorem fatal_closes : forall cf orc json st bs pre st0 c params rest e post,
+  steps cf orc json (length bs) st bs = pre ++ EvCmd st0 c params rest (HFatal e) :: post ->
+  post = [] /\ outs_of_ev (EvCmd st0 c params rest (HFatal e)) = [Err e; Close].
+Proof.
+  intros. split; [|reflexivity]. eapply ender_is_last; [exact H | reflexivity].
+Qed.
+
+Theorem handle_conn_no_panic : forall cf orc json bs,
+  ~ In Panic (handle_conn cf orc json bs) /\ ~ In OutOfFuel (handle_conn cf orc json bs).
+Proof.
+  intros. unfold handle_conn. destruct (read_full 4 bs) as [[m rest]|].
+  - destruct (bytes_eqb m magic_v2); [apply run_no_panic|].
+    split; intros [H|[H|[]]]; discriminate.
+  - split; intros [H|[]]; discriminate.
+Qed.
+
+Theorem handle_conn_limits : forall cf orc json bs, Forall (out_ok cf) (handle_conn cf orc json bs).
+Proof.
+  intros. unfold handle_conn. destruct (read_full 4 bs) as [[m rest]|].
+  - destruct (bytes_eqb m magic_v2); [apply run_limits, init_vals_ok | repeat constructor].
+  - repeat constructor.
+Qed.
+
+(* the outputs of a run, as a whole: every message handed to a topic comes from an
+   accepted publish *)
+Definition ev_enq_total (e : ev) : nat := enq_count (outs_of_ev e).
+Lemma enq_count_app : forall a b, enq_count (a ++ b) = (enq_count a + enq_count b)%nat.
+Proof. intros. unfold enq_count. rewrite filter_app, app_length. reflexivity. Qed.
+
+Lemma enq_count_flat : forall l, enq_count (flat_map outs_of_ev l) = list_sum (map ev_enq_total l).
+Proof.
+  induction l as [|e l IH]; [reflexivity|]. cbn [flat_map map list_sum]. rewrite enq_count_app, IH. reflexivity.
+Qed.
+
+(* ------------------------------------------------------------------ the statements used by props/C09.v *)
+Theorem exec_conn_no_panic : forall cf orc json bs,
+  ~ In Panic (exec_conn cf orc json bs) /\ ~ In OutOfFuel (exec_conn cf orc json bs).
+Proof. intros. apply run_no_panic. Qed.
+
+Theorem steps_conform_len : forall cf orc json st bs,
+  Forall (ev_conforms cf orc json) (steps cf orc json (length bs) st bs).
+Proof. intros. apply steps_conform. apply le_n. Qed.
+
+Theorem exec_conn_limits : forall cf orc json bs, Forall (out_ok cf) (exec_conn cf orc json bs).
+Proof. intros. apply run_limits. apply init_vals_ok. Qed.
+
+Theorem steps_enq_len : forall cf orc json st bs,
+  Forall (ev_enq cf) (steps cf orc json (length bs) st bs).
+Proof. intros. apply steps_enq. Qed.
+
+Theorem ident_ok_intervals : forall cf d,
+  ident_ok cf d = true ->
+  (i_hb d = -1 \/ i_hb d = 0 \/ 1000 <= i_hb d <= ms (c_max_hb cf)) /\
+  (i_obt d = -1 \/ i_obt d = 0 \/ ms (c_min_obt cf) <= i_obt d <= ms (c_max_obt cf)) /\
+  (i_obsize d = -1 \/ i_obsize d = 0 \/ 64 <= i_obsize d <= c_max_obsize cf) /\
+  0 <= i_sample d <= 99 /\
+  (i_msgto d = 0 \/ 1000 <= i_msgto d <= ms (c_max_msgto cf)).
+Proof.
+  intros cf d H. rewrite ident_ok_ranges in H. apply andb_true_iff in H. destruct H as [H _].
+  unfold ranges_ok, hb_ok, obt_ok, obsize_ok, sample_ok, msgto_ok in H.
+  set (a := ms (c_max_hb cf)) in *. set (b := ms (c_min_obt cf)) in *. set (c := ms (c_max_obt cf)) in *.
+  set (e := ms (c_max_msgto cf)) in *. lia.
+Qed.
